@@ -2541,6 +2541,16 @@ pub mod verif_hooks_parser {
 
     pub type PlainLine = (Option<LineParent>, u16, Vec<usize>, LogicalLineType);
 
+    /// One pass of the internal parser over the given token indices (no directive handling).
+    pub fn parse_pass(tokens: &mut [RawToken], pass: &[usize]) -> Vec<PlainLine> {
+        let mut attributed_directives = FxHashSet::default();
+        InternalDelphiLogicalLineParser::new(tokens, pass, &mut attributed_directives)
+            .parse()
+            .into_iter()
+            .map(|line| (line.parent, line.level, line.tokens, line.line_type))
+            .collect()
+    }
+
     /// Runs `consolidate_pass_lines` once per pass and returns the merged lines in index order.
     pub fn consolidate_passes(passes: Vec<Vec<PlainLine>>) -> Vec<PlainLine> {
         let mut lines = FxHashMap::default();
